@@ -362,6 +362,12 @@ def check_probe(ctx, case, world, cur, op, attr):
             if raw_after.get(kx) is not x:
                 ctx.fail(f"{route}|{mode}|key_view_stale", case, f"{op} on {before_content!r}: element {x!r} is in the container, but looking its key {kx!r} up gives {raw_after.get(kx)!r}")
                 return False, True
+    if target is not cur:
+        # the copy form edits a copy: the receiver's own container (an empty one included) is what it was
+        now = content_of(cur, attr, fam)
+        if (now is None) != (before_content is None) or (now is not None and not same_content(fam, T, now, before_content)):
+            ctx.fail(f"{route}|{mode}|receiver_container_changed", case, f"{op} (copy form) on {before_content!r} left the receiver holding {now!r}")
+            return False, False
     after_other = {k: v for k, v in model.state_of(target).items() if k != attr}
     if after_other != before_other:
         ctx.fail(f"{route}|{mode}|other_attributes", case, f"{op} changed other attributes: {before_other} -> {after_other}")
